@@ -43,6 +43,7 @@ RULE = ('case = one error_probability evaluation or one Metropolis step; '
         'distinct by (code, noise, rate, error); non-trivial = error != 0')
 ASSUMPTIONS = ['supported size family = pv/families.py']
 REQUIRED_COUNTERS = ['chain_end_states_compared', 'user_model_tables',
+                     'normalisation_sums_after_decoding',
                      'errors_given_in_another_representation',
                      'splitting_runs_with_rates_not_descending',
                      'log_forms_on_large_dense_errors',
@@ -183,6 +184,40 @@ def run_small(task, out):
                 out.case(desc, True, n=4 ** n, distinct=4 ** n - 1,
                          sample=dict(desc, n=n, total=total)
                          if direction == (0.5, 0.3, 0.2) else None)
+                # the same model object after decoders were built and run on
+                # it (the simulation layers share it with them): the sum over
+                # all errors is taken again
+                if 0 < p < 1 and dn is None and code.is_css and n >= 2 and \
+                        min(direction) >= 0:
+                    from panqec.decoders import BeliefPropagationOSDDecoder
+                    try:
+                        with contextlib.redirect_stdout(io.StringIO()):
+                            for cu in (True, False):
+                                dec = BeliefPropagationOSDDecoder(
+                                    code, em, p, channel_update=cu,
+                                    max_bp_iter=5)
+                                for w in (1, min(2, n)):
+                                    ee = np.zeros(2 * n, dtype='uint8')
+                                    ee[:w] = 1
+                                    ee[n + w - 1] = 1
+                                    dec.decode(code.measure_syndrome(ee))
+                        again = 0.0
+                        for e_int in range(4 ** n):
+                            got, ok = compare_one(
+                                out, em, code, tab, e_int, desc,
+                                mech + '/after-decoders-used-the-model')
+                            again += got
+                            if not ok:
+                                break
+                        out.count('normalisation_sums_after_decoding')
+                    except Exception as e:
+                        where = panqec_frame(e)
+                        if where is None:
+                            raise
+                        out.violation(
+                            f'{mech}/after-decoders/raises-'
+                            f'{type(e).__name__}',
+                            f'{type(e).__name__}: {e} at {where}', desc)
     out.extra.setdefault('exhaustive_codes', []).append(
         f'{cls}{tuple(size)}:n={n}')
 
